@@ -56,21 +56,21 @@ Fixpoint after_first (pat s : string) : option string :=
        | String _ r => after_first pat r
        end.
 
-(* [s] up to (excluding) the LAST occurrence of character [c] *)
-Fixpoint cut_last (c : ascii) (s : string) : option string :=
+(* [s] up to (excluding) the FIRST occurrence of character [c] *)
+Fixpoint cut_first (c : ascii) (s : string) : option string :=
   match s with
   | EmptyString => None
-  | String a r => match cut_last c r with
-                  | Some p => Some (String a p)
-                  | None => if Ascii.eqb a c then Some EmptyString else None
-                  end
+  | String a r => if Ascii.eqb a c then Some EmptyString
+                  else match cut_first c r with Some p => Some (String a p) | None => None end
   end.
 
-(* _sync_pattern (space, bracket, sync=, greedy anything, closing bracket), first element of findall:
-   leftmost start, greedy up to the last closing bracket *)
+(* _sync_pattern: space, opening bracket, sync=, anything but a closing bracket, closing bracket; first element of
+   findall: leftmost start, the tag ends at the FIRST closing bracket (since the repair of the size-tag defect: a size
+   tag behind the sync tag, as in  [sync=T] [65536B],  used to be swallowed by the greedy pattern).  If the leftmost
+   start has no closing bracket behind it no later one has either. *)
 Definition find_sync (name : string) : option string :=
   match after_first " [sync=" name with
-  | Some r => cut_last "]" r
+  | Some r => cut_first "]" r
   | None => None
   end.
 
